@@ -164,7 +164,7 @@ theorem cache_hit_honest (D : Nat → List Char) (H : Nat → Nat) (up : Bool) (
 
 /-- **cache_returns_unverified** — but the cache itself checks nothing: ANY parseable entry under the key comes back,
 whatever it was issued for.  What protects the signature is the attach site's own check (`cached_token_still_checked_sites`);
-the VSIX site has none (`attach_site_vsix_unchecked`). -/
+the VSIX site had none before fix a163120 (`attach_site_vsix_unchecked_orig`). -/
 theorem cache_returns_unverified (D : Nat → List Char) (st : StoreX) (r : XReq) (inner : Outcome) (t : Token)
     (hk : legalKey (cacheKey D r) = true) (h : lookupX st (cacheKey D r) = some (.tok t)) :
     cachedX D true st r inner = (⟨.ok (.cache, t), [], []⟩, st) := by
